@@ -1,12 +1,27 @@
-(* C08 — index contents do not depend on batching, threading, caching or memory-mapping (theorems are added as they close) *)
-From SA Require Import Base.Prelude Index.Index Index.Index_Spec.
+(* C08 — index contents do not depend on batching (threading / caching / memory-mapping: see DESIGN.md).
+   Statement-only file. *)
+From SA Require Import Base.Prelude Index.Index Index.Index_Spec Index.Index_Proofs2 Index.Index_Proofs3.
 Open Scope N_scope.
+
+(* any two batch sizes give the same per-term postings, lengths and dictionary *)
+Theorem C08_batch_size_irrelevant : forall docs bs bs' ix ix', wf_docs docs ->
+  index false bs docs = AOk ix -> index false bs' docs = AOk ix' ->
+  (forall t, lookup t (ix_posts ix') = lookup t (ix_posts ix)) /\
+  ix_lens ix' = ix_lens ix /\ ix_terms ix' = ix_terms ix.
+Proof. exact batch_size_irrelevant. Qed.
+Print Assumptions C08_batch_size_irrelevant.
+
+(* and indexing always succeeds within the limits, whatever the batch size *)
+Theorem C08_index_total : forall docs bs, wf_docs docs -> exists ix, index false bs docs = AOk ix /\ index_ok docs ix.
+Proof. exact index_any_ok. Qed.
+
 Example C08_batch_sizes_agree :
   let docs := [[1;2;1;3];[];[2];[1;1;2];[];[3;3;1]] in
-  match index false 1 docs, index false 2 docs, index false 4 docs, index false 100 docs with
-  | AOk a, AOk b, AOk c, AOk d =>
+  match index false 1 docs, index false 4 docs, index false 100 docs with
+  | AOk a, AOk c, AOk d =>
       (termfreqs a 1, docfreq a 3, ix_lens a) = (termfreqs d 1, docfreq d 3, ix_lens d) /\
-      (termfreqs b 1, docfreq b 3, ix_lens b) = (termfreqs d 1, docfreq d 3, ix_lens d) /\
       (termfreqs c 1, docfreq c 3, ix_lens c) = (termfreqs d 1, docfreq d 3, ix_lens d)
-  | _, _, _, _ => False end.
+  | _, _, _ => False end.
 Proof. vm_compute. repeat split. Qed.
+(* Not modelled: real thread interleavings; the slotting of completed futures by batch offset is exercised by the
+   check with forced completion orders. *)
